@@ -1156,6 +1156,14 @@ def run(ctx):
                           cls, " (identifiers 0b / 0x not followed by a digit of that base, D26: the model and the code differ exactly there)" if cls == KEY_D26 else ""),
                       "count": n,
                       "first": [{"text": esc(f["text"])[:300], "real": f["real"][:600], "model": f["model"][:600], "family": f["family"]} for f in fs[:3]]})
+    # extraction cross-check: a sample of the run evaluated by vm_compute inside Coq == the extracted executable
+    import coqcases
+    pool = sorted({c[1] for c in cases if 0 < len(c[1]) <= 48})
+    xs = ctx.rng.sample(pool, min(len(pool), 150 if ctx.quick else 600))
+    xn, xf = coqcases.crosscheck("lex", xs, run_lines(syn_exe, "lex", [text_line(t) for t in xs]), "C14")
+    ctx.cov["extraction_crosscheck_cases"] = xn
+    if xf:
+        fails.append(xf)
     vlib.broken_ties_to_violations(ctx, fails, reported > 0)
     timing["verdict_and_minimisation"] = round(time.time() - t1, 1)
 
